@@ -2,6 +2,7 @@ package main
 
 import (
 	"context"
+	"errors"
 	"fmt"
 	"io"
 	"os"
@@ -224,6 +225,11 @@ func (r *coreRun) idOf(e *slog.Entry) int {
 
 func (r *coreRun) opts(idx int) (res []any) {
 	for _, o := range r.sc.OptLists[idx-1] {
+		if o.K == "KV" {
+			// a bare key, value pair among the arguments of New: New(name, "k", v, ...)
+			res = append(res, attrName(o.A), o.B)
+			continue
+		}
 		res = append(res, r.opt(o))
 	}
 	return
@@ -679,6 +685,15 @@ func (r *coreRun) observe(rec map[string]any) {
 				}
 			}
 			if r.obs["shapes"] {
+				// ... and a record carrying an error-valued attribute has the logger's shape too
+				sink.reset()
+				l.WriteThru(context.Background(), slog.InfoLevel, r.ts, 0, "probe", slog.NewAttrs("err", errors.New("boom"), "k", 1))
+				for _, e := range takeAll() {
+					if e.K == "w" {
+						shapes = append(shapes, shapeOf(e.payload))
+						break
+					}
+				}
 				o["shapes"] = shapes
 			}
 			if r.obs["dest"] {
